@@ -540,11 +540,15 @@ type c11Model struct {
 	status   int
 	trace    []c11Trace
 	inRange  []bool
-	errEnd   bool   // the run ends with an error
-	nrSlack  int    // cmd | getline may or may not have counted
-	phase    string // begin | rule | end
-	n        int
-	steps    int
+	errEnd   bool // the run ends with an error
+	// stdinOpens counts how often the main input turned to standard input (no operand left, or
+	// an operand "-"): the second time puts a second buffered reader on the same stream, and
+	// which of the two gets which bytes no property says
+	stdinOpens int
+	nrSlack    int    // cmd | getline may or may not have counted
+	phase      string // begin | rule | end
+	n          int
+	steps      int
 }
 
 type c11Signal int
@@ -621,6 +625,7 @@ func (m *c11Model) nextMain() (string, bool, bool) {
 		if m.cur == nil {
 			if m.cursor >= m.argc && !m.hadFiles {
 				m.cur = m.stdin
+				m.stdinOpens++
 				m.onStdin = true
 				m.filename = c11StdinName
 				m.fnr = 0
@@ -645,6 +650,7 @@ func (m *c11Model) nextMain() (string, bool, bool) {
 				}
 				if name == "-" {
 					m.cur = m.stdin
+					m.stdinOpens++
 					m.onStdin = true
 					m.filename = c11StdinName
 					m.fnr = 0
@@ -1066,6 +1072,11 @@ func (e c11Engine) Run(scAny any, keep bool) (out core.Outcome) {
 	defer func() { interp.VerifStep = nil }()
 	res := execProgram(prog, cfg)
 	model := c11RunModel(sc)
+	if model.stdinOpens > 1 {
+		out.One(log.Hash(), false)
+		out.Probe("runs_that_open_standard_input_twice_unspecified", 1)
+		return out
+	}
 	for _, t := range trace {
 		log.Add(t.String())
 	}
